@@ -593,3 +593,21 @@ func c15Run(x *vmc.X, cfg vmc.Cfg) {
 		x.Outcome("%v", contacted)
 	}
 }
+
+// C08 part "dual": the property's last clause (the dual client merges its two sources under the same
+// rules without repeating a peer) is decided on the find-providers family of the C15 harness: every
+// distribution of two providers over the WAN responder, the LAN responder and the local store, every
+// count in 0..2, every order of deliveries of the two lookups.
+func c08DualConfigs(tier string) []vmc.Cfg {
+	var out []vmc.Cfg
+	for _, c := range c15Configs(tier) {
+		if c.Data.(c15cfg).part == "findproviders" {
+			out = append(out, c)
+		}
+	}
+	return out
+}
+
+func TestVMC_C08dual(t *testing.T) {
+	vmc.Main(t, vmc.Harness{ID: "C08", Configs: c08DualConfigs, Run: c15Run, Bubble: true})
+}
